@@ -252,21 +252,37 @@ def block_cfg(root):
         blocks[name] = lv
         return name
 
+    def test_blocks(test, true_to, false_to):
+        """Blocks and edges of a condition.  A short-circuit chain (a real BoolOp node) is one block per operand: under `and` a
+        false operand leaves to the false exit, the last true one to the true exit; under `or` the other way round."""
+        if test is not None and test.cls == 'BoolOp' and getattr(test.fields.get('op'), 'cls', None) in ('And', 'Or'):
+            is_and = test.fields['op'].cls == 'And'
+            names = [blk('%s.values[%d]' % (test.path, i), v) for i, v in enumerate(test.fields['values'])]
+            edges.append(('pre', names[0]))
+            for i, nm in enumerate(names):
+                last = i == len(names) - 1
+                edges.append((nm, false_to if is_and else true_to))
+                edges.append((nm, names[i + 1]) if not last else (nm, true_to if is_and else false_to))
+            return names[0]
+        t = blk(test.path if test is not None else 'node.test', test)
+        edges.extend([('pre', t), (t, true_to), (t, false_to)])
+        return t
+
     if c == 'If':
-        t = blk('node.test', f['test'])
         bd = blk('node.body', f['body'])
         el = blk('node.orelse', f['orelse'])
-        edges += [('pre', t), (t, bd), (t, el), (bd, 'after'), (el, 'after')]
+        test_blocks(f['test'], bd, el)
+        edges += [(bd, 'after'), (el, 'after')]
     elif c in ('For', 'AsyncFor'):
         it = blk('node.iter', f['iter'])
         bd = blk('node.body', f['body'])
         el = blk('node.orelse', f['orelse'])
         edges += [('pre', it), (it, bd), (bd, bd), (it, el), (bd, el), (el, 'after')]
     elif c == 'While':
-        t = blk('node.test', f['test'])
         bd = blk('node.body', f['body'])
         el = blk('node.orelse', f['orelse'])
-        edges += [('pre', t), (t, bd), (bd, t), (t, el), (el, 'after')]
+        t0 = test_blocks(f['test'], bd, el)
+        edges += [(bd, t0), (el, 'after')]
     elif c == 'Try' and f['body'] and f['body'][-1].cls in ('Return', 'Raise'):
         # try: S...; return E  -  every statement before the escaping one, and its expression, can hand control to the
         # handlers (exception) and to the finally block; the else block is never reached
@@ -310,10 +326,10 @@ def block_cfg(root):
         bd = blk('node.body', f['body'])
         edges += [(prev, bd), (bd, 'after')]
     elif c == 'IfExp':
-        t = blk('node.test', f['test'])
         bd = blk('node.body', f['body'])
         el = blk('node.orelse', f['orelse'])
-        edges += [('pre', t), (t, bd), (t, el), (bd, 'after'), (el, 'after')]
+        test_blocks(f['test'], bd, el)
+        edges += [(bd, 'after'), (el, 'after')]
     elif c == 'BoolOp':
         prev = 'pre'
         for i, v in enumerate(f['values']):
